@@ -60,6 +60,6 @@ func AddressesFromStreamKey(key []byte) (sdk.AccAddress, sdk.AccAddress) {
 
 // FirstAddressFromStreamStoreKey parses the first address only
 func FirstAddressFromStreamStoreKey(key []byte) sdk.AccAddress {
-	addrLen := key[0]
+	addrLen := int(key[0])
 	return sdk.AccAddress(key[1 : 1+addrLen])
 }
